@@ -254,17 +254,41 @@ class DBFSStore(Store):
                     f"Could not read metadata for key {key}: {_pprint_exception(e)}"
                 )
                 meta = None
+            copy_pending = False
             if meta is not None:
-                redir_key = json.loads(meta)["redirection_key"]
+                record = json.loads(meta)
+                redir_key = record["redirection_key"]
+                copy_pending = bool(record.get("copy_pending"))
             else:
                 redir_key = None
-            if redir_key is None or redir_key != key:
+            if (
+                redir_key == key
+                and self._commit_type == CommitType.FULL
+                and not copy_pending
+            ):
+                # The record alone does not say that the copy is there: it may have been written by a
+                # links-only commit of the same result.
+                try:
+                    self._dbutils.fs.ls(str(self._physical_path(Path("./" + dds_p))))
+                except Exception:
+                    copy_pending = True
+            if redir_key is None or redir_key != key or copy_pending:
                 _logger.debug(
                     f"Path {dds_p} needs update (registered key {redir_key} != {key})"
                 )
                 blob_path = self._blob_path(key)
                 obj_path = self._physical_path(Path("./" + dds_p))
                 if self._commit_type == CommitType.FULL:
+                    if redir_key is not None and not copy_pending:
+                        # The copy is about to be replaced while the record still names the previous key. If the
+                        # commit stops between the copy and the new record, the mark tells the next commit that
+                        # the copy cannot be trusted even when the record names the key it wants.
+                        self._put(
+                            redir_path,
+                            json.dumps(
+                                {"redirection_key": redir_key, "copy_pending": True}
+                            ),
+                        )
                     _logger.debug(f"Copying {blob_path} -> {obj_path}")
                     # Optimization for the files saved with Spark: use spark to read and write.
                     # This can be much faster than using DBFS, which does a temporary copy on a local drive
